@@ -94,6 +94,17 @@ static SPECS: &[PropertySpec] = &[
         assumptions: &["Host value on the http-via-proxy leg is not demanded", "no-proxy entries are whole host names here (suffix semantics belong to C11)"],
     },
     PropertySpec {
+        id: "C11",
+        scenario: props::c11::scenario,
+        level: "exploration",
+        rule: "configuration sampling (no schedule or fault in this property - stated plainly): hosts over a small label alphabet so that equal / subdomain / same-suffix / superstring relations occur, IPv4/IPv6 literals; no-proxy entries derived from the host (equal, upper-case, parent domain, first characters dropped, TLD only, prefixed, empty); builder API and the simulated environment (8 variables over unset/empty/blank/http/https/socks/garbage, NO_PROXY lists with blanks and leading dots, '*'); observed on for_url() and on the peer send() dials; distinct = configuration shape; every run non-trivial",
+        quick_runs: 20000,
+        thorough_runs: 2_000_000,
+        real_components: REAL,
+        stubbed_components: STUB,
+        assumptions: &["a lower-case variable that is present but ignorable next to a usable upper-case one, and '*' as an element of a longer list, are not decided by the statement (don't-care)", "builder entries never carry a leading dot (the statement defines dot-stripping for the environment only)"],
+    },
+    PropertySpec {
         id: "C13",
         scenario: props::c13::scenario,
         level: "exploration",
